@@ -219,8 +219,8 @@ class Mirror:
     def _enter(self, i, f):
         if self.loaded and f == "":
             self.pc[i] = "done"
-        else:
-            self.loaded, self.lock, self.pc[i], self.prog = True, i, "locked", 0
+        else:   # only a load of all templates sets the flag (repair dd313c0)
+            self.loaded, self.lock, self.pc[i], self.prog = self.loaded or f == "", i, "locked", 0
 
     def _finish(self, i):
         self.lock, self.prog, self.freeze = None, 0, False
@@ -278,9 +278,13 @@ class Mirror:
     def _never_holds(self, i):
         """its next step cannot end with the lock held, provided the load in progress succeeds"""
         pc, (o, n) = self.pc[i], self.ops[i]
-        if pc == "afterload" or pc == "check":
+        if pc == "afterload":
             return True
-        return pc == "start" and self.flt(i) == ""
+        # the flag after the load in progress: set by a load of all templates, left alone by a filtered one
+        flag = self.loaded or self.flt(self.lock) == ""
+        if pc == "check":
+            return flag
+        return pc == "start" and self.flt(i) == "" and flag
 
     def can_probe(self, i):
         if self.pc[i] == "done" or self.enabled(i) or i in self.fl or self.lock is None:
@@ -576,7 +580,10 @@ def all_schedules(mirror, tids, limit=400):
 PROD_PAIRS = [[("render", "a"), ("render", "b")], [("render", "a"), ("render", "a")],
               [("render", "a"), ("render", "zz")], [("render", "a/b"), ("load", "")],
               [("load", ""), ("load", "")], [("render", "a.partial/x"), ("render", "c/d/e")],
-              [("render", "a"), ("load", "a")], [("load", "b"), ("render", "a")]]
+              [("render", "a"), ("load", "a")], [("load", "b"), ("render", "a")],
+              # filtered explicit loads (of a template, a directory prefix, a missing name) around first renders
+              [("load", "a"), ("render", "b")], [("load", "c/"), ("render", "c/d/e")],
+              [("load", "zz"), ("render", "a")], [("load", "a"), ("load", "")], [("load", "a"), ("load", "b")]]
 DEBUG_PAIRS = [[("render", "a"), ("render", "b")], [("render", "a"), ("render", "ab")],
                [("render", "a/b"), ("render", "a")], [("render", "a"), ("render", "a")],
                [("render", "a"), ("render", "zz")], [("render", "b"), ("load", "")],
@@ -602,7 +609,8 @@ def enumerated(rng, tier):
                     ops = list(pair)
                     tids = [0, 1]
                     if variant == "warm":
-                        ops = ops + [rng.choice([("load", ""), ("render", "a"), ("render", "b")])]
+                        ops = ops + [rng.choice([("load", ""), ("render", "a"), ("render", "b")] +
+                                                ([] if debug else [("load", "a"), ("load", "c/")]))]
                     b0.start(ops)
                     if variant == "warm":
                         b0.run_to_end(2)
@@ -632,6 +640,7 @@ def enumerated(rng, tier):
                         cases.append(b.case("enum2-%s-%s-%s" % ("debug" if debug else "prod", sc, variant)))
     if tier != "quick":
         triples = [(False, [("render", "a"), ("render", "b"), ("load", "")]),
+                   (False, [("load", "a"), ("render", "b"), ("render", "a")]),
                    (False, [("render", "a"), ("render", "a"), ("render", "zz")]),
                    (True, [("render", "a"), ("render", "ab"), ("render", "b")]),
                    (True, [("render", "a/b"), ("render", "a"), ("load", "")])]
@@ -694,10 +703,13 @@ def random_history(rng, tier, hostile, stat=False, inside=False):
         y = rng.random()
         if y < (0.85 if stat else 0.70):
             ops.append(("render", n))
-        elif y < 0.90 or (not debug and not hostile):
+        elif y < (0.92 if stat else 0.85):
             ops.append(("load", ""))
-        else:
-            ops.append(("load", rng.choice(["a", "b", "c/", "a.partial/", n])))
+        else:   # filtered explicit load: of a template, a directory prefix, a missing name
+            ops.append(("load", rng.choice(["a", "b", "c/", "a.partial/", "a/", "zz", n, n])))
+    if not debug and rng.random() < 0.25:
+        # production mode: a filtered load is the very first call
+        ops[0] = ("load", rng.choice(["a", "b", "c/", "zz", rng.choice(pool)]))
     if hostile and debug and rng.random() < 0.3:
         ops[rng.randrange(len(ops))] = ("render", "")
     b.start(ops)
@@ -725,9 +737,10 @@ def random_history(rng, tier, hostile, stat=False, inside=False):
 
 
 # ---- a load is a long operation: other calls arrive at every moment of it
-LOADERS_PROD = [("load", ""), ("render", "a"), ("render", "zz")]
+LOADERS_PROD = [("load", ""), ("render", "a"), ("render", "zz"), ("load", "a"), ("load", "c/")]
 LOADERS_DEBUG = [("load", ""), ("render", "a"), ("render", "a/b"), ("load", "a"), ("load", "c/")]
-ARRIVALS_PROD = [("render", "a"), ("render", "ab"), ("render", "zz"), ("load", ""), ("render", "c/d/e")]
+ARRIVALS_PROD = [("render", "a"), ("render", "ab"), ("render", "zz"), ("load", ""), ("render", "c/d/e"),
+                 ("load", "a"), ("load", "zz")]
 ARRIVALS_DEBUG = [("render", "a"), ("render", "ab"), ("render", "b"), ("load", ""), ("load", "a"), ("render", "zz")]
 
 
@@ -883,14 +896,18 @@ class C10(Prop):
             "the cases are not 'natural'; markers have a fixed width, so plain rewrites keep the size as well and "
             "fall within one mtime tick). "
             "Stream 1: EVERY interleaving of two calls "
-            "for 8 production and 11 debug call pairs on seven tree scenarios (all files good; an error file; a panic "
+            "for 13 production (5 of them with a filtered explicit load of a template, a directory prefix or a missing "
+            "name before / beside a first render or a load of all templates) and 11 debug call pairs on seven tree scenarios (all files good; an error file; a panic "
             "file; an error / a panic file sharing a name prefix with the rendered templates; both kinds; an undefined "
             "mixin), plain, with an edit at a random position (4 sampled interleavings, thorough: all), and after a "
             "warm-up call (thorough adds 700 sampled interleavings of three calls for 4 triples x 3 scenarios). "
             "Stream 2 (60% of n): random histories of 3..14 (thorough 24) calls, concurrency 1 (sequential), 2 or "
-            "3, edits with probability 0/0.15/0.35 per step, 20% hostile (filtered explicit loads in production mode, "
-            "render of the empty name). Stream 3 (arrivals): a call A (explicit load, first render, debug render, "
-            "filtered load) is inside its load and parked at file k, for EVERY k from 0 to the number of files it "
+            "3, edits with probability 0/0.15/0.35 per step; in BOTH modes 70% of the calls are renders, 15% loads of "
+            "all templates, 15% filtered explicit loads (of a template, a directory prefix, a missing name), and in "
+            "25% of the production histories a filtered load is the very first call (the same holds in streams 4 and "
+            "5 with their own shares); 20% hostile (render of the empty name in debug mode). "
+            "Stream 3 (arrivals): a call A (explicit load, first render, debug render, "
+            "filtered load - in production mode too) is inside its load and parked at file k, for EVERY k from 0 to the number of files it "
             "compiles; a second and sometimes a third call arrive, take the steps they can take, are probed blocked; "
             "A goes on file by file (70%) or straight to the end; on 3 (thorough 7) tree scenarios. Stream 4 (20%): "
             "random histories of 3..8 calls, concurrency 2-3, with compile steps and probes at random (weights "
@@ -925,9 +942,14 @@ class C10(Prop):
     assumptions = [
         "a file system holds at most one entry per path and path segments are clean (dom_fs: distinct template files "
         "have distinct names, no segment is empty, '.', '..' or contains '/')",
-        "production mode: explicit LoadTemplates calls with a non-empty filter are outside the domain of the load-once "
-        "and cold-start theorems (modelled and compared, but judged off-domain); debug mode: Render of the empty name is "
-        "outside the domain (it is a full load and is refused the second time)",
+        "production mode: filtered explicit loads are IN the domain (since repair dd313c0 of /repo): the cold-start, "
+        "filtered-first and full-load-exact theorems hold for any calls; only 'a set in place is never replaced' "
+        "(C10_prod_once, C10_prod_cold_start_with_edits) keeps the hypothesis full_loads, because a filtered load "
+        "re-reads the files under its filter by design and one that FAILS resets the loaded flag, so that the next "
+        "render loads everything again (C10_prod_once_filtered_refuted) - the oracle's 'all renders from one version "
+        "of the tree' accordingly speaks of names no filtered load of the case covers, in cases where no filtered "
+        "load failed; debug mode: Render of the empty name is outside the domain (it is a load of all templates "
+        "and is refused the second time)",
         "the model's load reads the whole tree at the instant it finishes: a file edit that arrives between the first "
         "and the last file read of ONE load is not modelled (stream 6 judges such cases by the oracle only: every "
         "result must be explained, file by file, by some version of the tree current during the call)",
